@@ -65,7 +65,11 @@ def run_one(scratch, m):
                                stderr=subprocess.STDOUT, text=True)
             hit = [l for l in r.stdout.splitlines() if 'VIOLATION' in l or ': C' in l]
             keys = [l for l in r.stdout.splitlines() if m.get('expect', '') in l and not l.startswith('VIOLATION') and not l.startswith('KNOWN')]
-            ok = r.returncode == 1 and bool(keys) if not m.get('benign') else r.returncode == 0
+            if m.get('undecided'):
+                # honest limit: the construct is outside the rule's model - the check must say NO-VERDICT, never VIOLATION
+                ok = r.returncode == 2 and 'NO-VERDICT' in r.stdout and 'VIOLATION' not in r.stdout
+            else:
+                ok = r.returncode == 1 and bool(keys) if not m.get('benign') else r.returncode == 0
             res.append((prop, ok, r.returncode, r.stdout))
     finally:
         for p, s in saved.items():
